@@ -447,3 +447,88 @@ Proof.
   simpl; rewrite app_nil_r; unfold strip at 1, strip_call at 1; cbn [fst snd]; f_equal; exact Hk.
 Qed.
 End Spans.
+
+(* ---------- parse_tree::parse on top of the engine ---------- *)
+Section EngineLevel.
+Variable G : grammar.
+Variable sel : selector.
+Variable C : cfg.
+Variable post : rid -> bool.
+Hypothesis Hpost : forall fam r n, acts C fam r = AKMatch (MLimitBytes n) \/ acts C fam r = AKMatch (MCheckBytes n) -> post r = true.
+(* no Action< Rule >::apply/apply0 throws (known finding: such a rule gets no unwind), no raising failure hook *)
+Hypothesis Hnothrow : forall fam r b e t, abeh C fam r b e <> AThrow t.
+Hypothesis Hrof : forall k r, raise_on_failure C k r = false.
+
+Lemma engine_log_has_call_forest G' f d r c o c' evs :
+  eval G' (pt_cfg C) f d r c = Res o c' evs -> exists ts, call_forest (hooks_of evs) = Some ts.
+Proof.
+  intros H.
+  pose proof (eval_B true G' (pt_cfg C) post Hpost (fun _ _ => eq_refl) (fun _ => Hnothrow) (fun _ => Hrof) f d r c) as K.
+  rewrite H in K. simpl in K. eapply accepted_has_call_forest. apply (K []).
+Qed.
+
+Theorem engine_exact f d r c o c' evs :
+  eval (pt_table G sel) (pt_cfg C) f d r c = Res o c' evs ->
+  exists ts, call_forest (hooks_of evs) = Some ts /\
+    (Forall (conf G) ts ->
+     build (kind G sel) [blank] (hooks_of evs) = Some [derivation_tree (selected G sel) ts]).
+Proof.
+  intros H. destruct (engine_log_has_call_forest _ _ _ _ _ _ _ _ H) as [ts Hts]. exists ts. split; [exact Hts|].
+  intros Hc. destruct (call_forest_sound _ _ Hts) as [Hw He]. rewrite He.
+  apply build_exact; [apply kind_at_sel | | exact Hw].
+  unfold leaf_clean_forest. eapply Forall_impl; [|exact Hc]. intros t Ht. apply conf_leaf_clean. exact Ht.
+Qed.
+
+Theorem engine_parse f d r c o c' evs :
+  eval (pt_table G sel) (pt_cfg C) f d r c = Res o c' evs ->
+  exists ts, call_forest (hooks_of evs) = Some ts /\
+    (Forall (conf G) ts ->
+     pt_parse G sel C f d r c = match o with
+                                | Ok => PtTree (derivation_tree (selected G sel) ts)
+                                | Fail => PtNull
+                                | Exc e => PtExc e
+                                end).
+Proof.
+  intros H. destruct (engine_exact _ _ _ _ _ _ _ H) as [ts [Hts Hb]]. exists ts. split; [exact Hts|].
+  intros Hc. unfold pt_parse. rewrite H. destruct o; simpl; try reflexivity. rewrite (Hb Hc). reflexivity.
+Qed.
+End EngineLevel.
+
+(* ---------- corollaries in the form used by Properties_C12 ---------- *)
+Lemma derivation_nodes_exact selp ts : plain_sel selp ->
+  map strip (flat_map tree_nodes (deriv_forest selp ts)) = map (strip_call) (filter (is_sel selp) (live_forest ts)).
+Proof.
+  intros Hp. induction ts as [|t ts IH]; [reflexivity|]. unfold deriv_forest, live_forest in *. simpl.
+  rewrite flat_map_app, map_app, filter_app, map_app, (deriv_nodes_exact selp t Hp), IH. reflexivity.
+Qed.
+
+(* builder = derivation tree of the call tree of the log, for every log that has one *)
+Lemma build_exact_log kind_ selp evs ts :
+  (forall r, match kind_ r with KSel t => selp r = Some t | _ => selp r = None end) ->
+  call_forest evs = Some ts -> leaf_clean_forest kind_ selp ts ->
+  build kind_ [blank] evs = Some [derivation_tree selp ts].
+Proof.
+  intros Hs Hc Hl. destruct (call_forest_sound _ _ Hc) as [Hw He]. subst evs. apply build_exact; assumption.
+Qed.
+
+(* the same control without the leaf optimisation: every unselected rule keeps a scratch node *)
+Definition kind_noleaf (G : grammar) (sel : selector) (r : rid) : hkind :=
+  match selected G sel r with Some t => KSel t | None => KPass end.
+
+Lemma noleaf_clean G sel t : leaf_clean (kind_noleaf G sel) (selected G sel) t.
+Proof.
+  induction t as [r b h e kids IH] using ctree_ind'. split.
+  - unfold kind_noleaf. destruct (selected G sel r); discriminate.
+  - induction kids as [|k tl IHk]; [exact I|]. inversion IH; subst. split; [assumption | apply IHk; assumption].
+Qed.
+
+Lemma leaf_opt_sound G sel lvl ts : Forall (conf G) ts -> forallb wf_ct ts = true ->
+  build (kind_at G sel lvl) [blank] (flatten_forest ts) = build (kind_noleaf G sel) [blank] (flatten_forest ts).
+Proof.
+  intros Hc Hw.
+  rewrite (build_exact (kind_at G sel lvl) (selected G sel) (kind_at_sel G sel lvl) ts); [| | exact Hw].
+  - symmetry. apply build_exact; [| | exact Hw].
+    + intros r. unfold kind_noleaf. destruct (selected G sel r); reflexivity.
+    + unfold leaf_clean_forest. clear. induction ts; constructor; [apply noleaf_clean | assumption].
+  - unfold leaf_clean_forest. eapply Forall_impl; [|exact Hc]. intros t Ht. apply conf_leaf_clean. exact Ht.
+Qed.
